@@ -1,256 +1,256 @@
 """C32 - message text round-trips for every content type.
 
-Decided (two necessary conditions only - claim: narrow):
-  R32.1 charset-evidence symmetry: ``Message.set_text`` (encoder) and ``Message.get_text`` (decoder) choose the charset with
-        ``infer_content_encoding``.  Every piece of evidence the decoder hands to that function AND that the function
-        actually reads (its ``content`` parameter: BOM, <meta charset>, <?xml encoding?>, @charset sniffing) must also
-        be handed over by the encoder (e.g. by re-inferring from the produced bytes and reconciling), and both must
-        read the same Content-Type header.  Otherwise a text that itself contains a charset declaration is decoded with
-        a different charset than it was encoded with.  *The pinned tree violates this (F-C32, known finding, will not
-        be fixed): text/html + '<meta charset="latin-1">é' reads back as 'Ã©'.*
-  R32.2 fallback agreement: on ``set_text``'s ``except ValueError`` path the charset parameter written to Content-Type
-        and the codec used for the bytes denote the same codec, the header is rebuilt after the parameter was set,
-        and the text is encoded with ``surrogateescape``; ``get_text(strict=False)`` falls back to the same codec and
-        error handler.
-  R32.3 every stored body is in the charset the decoder will choose (path rule over ``set_text``): on every returning path the
-        last value written to ``self.content`` is ``None`` (only where the text is None), empty bytes (only where the text
-        is falsy), or the *unmodified text parameter* encoded (``encoding.encode(text, E)`` | ``text.encode(E, ...)`` |
-        ``codecs.encode(text, E, ...)``, optionally inside ``cast``) with a codec ``E`` that is EITHER the value
-        ``infer_content_encoding`` returned on this path (the charset ``get_text`` infers from the same header) OR a
-        constant that the same path declares in the ``charset`` parameter and writes back with ``assemble_content_type``
-        (the R32.2 shape).  A path that stores the text under a constant codec without touching the header, and whose
-        branch conditions do not depend on the header / inferred charset, is reachable for a header whose charset
-        encodes the same text to other bytes (utf-16le, utf-32be, cp037, an unknown name): ``get_text`` then decodes
-        with another codec (mojibake / ValueError), or the "update the declared charset" clause is skipped.  A path
-        that returns without storing anything drops the text.  Shapes outside the enumerated idioms (constant-codec
-        store guarded by a test on the inferred charset, codec computed from the inferred one, helper methods) are
-        ANALYSIS-ERRORs, never violations.
-  R32.4 header-first ordering, decided on a finite table by interpreting ``infer_content_encoding`` (pyint, trusted ``re``
+R32.1 - R32.3 are decided by *interpreting* ``Message.set_text`` / ``Message.get_text`` (and, through them, ``set_content`` /
+``get_content`` and ``infer_content_encoding`` / ``parse_content_type`` / ``assemble_content_type``) from their AST with
+mitmlint/pyint.py on abstract messages (case-insensitive header record), over a finite table of Content-Type values x
+texts.  The charset layer below (``encoding.encode`` / ``encoding.decode`` for non-table codings) is the stdlib ``codecs``
+reference (C31 R31.1 decides that the repository functions equal it).  Nothing is matched by shape: locals, temporaries,
+try/else, unpacking, dict displays, keyword arguments, helper methods, logging and assertions do not matter.
+
+Decided (claim: narrow - a finite table, not all strings x all charsets):
+  R32.1 charset agreement: for non-ASCII texts that the charset inferred from the Content-Type header can represent,
+        ``set_text`` followed by ``get_text`` yields the text (encoder and decoder choose the same charset from the same
+        header).  Texts that carry their own charset evidence (BOM, <meta charset>, <?xml encoding?>, @charset) while the
+        header declares none: the decoder sniffs the body, the encoder infers from the header alone - *the pinned tree
+        violates this (F-C32, known finding, will not be fixed): text/html + '<meta charset="latin-1">é' reads back as
+        'Ã©'.*  That finding is reported under one stable key whenever the interpreted round trip fails with exactly this
+        signature (body stored in the header-only charset, decoder infers another charset from the stored body); any
+        other failure of these cells is a separate finding.
+  R32.2 fallback agreement: a text the inferred charset cannot represent (or whose charset is unknown) reads back
+        unchanged - i.e. the charset the fallback declares in Content-Type is the codec it encoded with and the header is
+        rebuilt after the parameter was set; surrogate-escaped text is stored with ``surrogateescape`` and
+        ``get_text(strict=False)`` falls back to the same codec and error handler.
+  R32.3 every other text is stored in the charset the decoder will choose: ``None`` clears the body, empty / blank / ASCII
+        texts read back unchanged for every declared charset (utf-16le, cp037, unknown names ...), nothing is dropped.
+  R32.4 header-first ordering, decided on a finite table by interpreting ``infer_content_encoding`` (trusted ``re``
         / ``collections``): while the encoder infers from the Content-Type alone (F-C32), for every media type x
         explicit ``charset=H`` x BOM-free body carrying an in-body declaration of another charset (<meta charset>,
         <meta http-equiv>, <?xml encoding?>, @charset) the decoder's ``infer(ct, body)`` must equal the encoder's
         ``infer(ct)``.  (Without a header charset and for BOMs the two already differ: that is exactly the known
-        finding F-C32 and is reported by R32.1 only.)  If an in-body declaration outranks an explicit header charset,
-        ``set_text`` writes the header's charset and ``get_text`` reads the body's: a different, new disagreement.
-        The rule is not armed once the encoder hands the produced bytes to the inference as well (then ordering is
-        immaterial and R32.1 decides).
-NOT decided: everything value-level (all strings x all charsets x all content types); whether codecs that share a name
-        normalisation really are inverse; encoding.encode/decode themselves.
+        finding F-C32 and is reported by R32.1 only.)  The rule is not armed once the F-C32 signature is gone (the
+        encoder reconciles with the produced bytes, or the decoder stopped sniffing).
+NOT decided: everything value-level beyond the table (all strings x all charsets x all content types); the codecs.
 """
 
 from __future__ import annotations
 
-import ast
+import codecs
+import collections
+import re
 
-from ..core import AnalysisError
-from ..model import attr_chain
-from ..model import last_attr
-from ..pyint import Interp
+from ..pyint import NullLog
 from ..pyint import Raised
 from ..selftest import Mutant
+from ._helpers_E import GlobalsInterp
+from ._helpers_E import Warnings
 from ._helpers_E import expect
+from ._helpers_E import header_of
+from ._helpers_E import message_rec
 from ._helpers_E import params
-from ._helpers_E import paths
-from ._helpers_E import show
 
 PROP = "C32"
 REG = {
     "strength": "narrow",
-    "technique": "sibling agreement: evidence passed to infer_content_encoding by encoder vs decoder (restricted to parameters the function reads) + path rules on set_text "
-    "(every stored body is encoded with the inferred charset or with a constant the path declares in the header) + decision table of infer_content_encoding "
-    "interpreted from its AST over media types x header charsets x in-body declarations (header-first ordering)",
-    "claim": "set_text and get_text infer the charset from the same evidence (violated on the pinned tree: known finding F-C32); the UTF-8 "
-    "fallback of set_text declares the codec it encodes with and get_text(strict=False) falls back to the same codec and error handler; every path of "
-    "set_text stores the unmodified text encoded with the charset get_text infers from the header or rewrites the header to the constant it used; "
-    "an explicit Content-Type charset is never outranked by a BOM-free in-body declaration, so the F-C32 asymmetry stays confined to header-less charsets and BOMs.",
-    "note": "Four necessary conditions; no value-level round-trip is decided. R32.4 trusts re/collections and interprets infer_content_encoding + parse_content_type only.",
+    "technique": "AST interpretation of Message.set_text / get_text (with set_content / get_content, infer_content_encoding, parse / assemble_content_type) on abstract messages over "
+    "a finite table Content-Type x text: the text must read back (charset agreement, UTF-8 fallback agreement, nothing dropped) + decision table of infer_content_encoding over media "
+    "types x header charsets x in-body declarations (header-first ordering)",
+    "claim": "on the table, set_text and get_text choose the same charset from the Content-Type header (texts carrying their own charset evidence: violated on the pinned tree, known "
+    "finding F-C32); the UTF-8 fallback of set_text declares the codec it encodes with and get_text(strict=False) falls back to the same codec and error handler; None / empty / blank / "
+    "ASCII texts are stored in the charset get_text infers; an explicit Content-Type charset is never outranked by a BOM-free in-body declaration, so the F-C32 asymmetry stays confined "
+    "to header-less charsets and BOMs.",
+    "note": "Finite table only; stdlib codecs/re/collections are trusted; encoding.encode/decode are replaced by the codecs reference inside http.py (C31 decides them).",
 }
 
 HTTP = "mitmproxy/http.py"
 HDRS = "mitmproxy/net/http/headers.py"
+ENC = "mitmproxy/net/encoding.py"
 INFER = "infer_content_encoding"
+CT = "content-type"
+# the construct of the known finding F-C32 (known_findings.json matches on it): a constant, so that renamed parameters / locals of a refactored tree keep the key
+F_C32 = "set_text: infer_content_encoding(content_type) vs get_text: infer_content_encoding(content, content_type)"
 
 
 def _codec(name: str) -> str:
-    return name.lower().replace("-", "").replace("_", "")
-
-
-def _q(s):
-    return s.replace('"', "'")
+    try:
+        return codecs.lookup(name).name
+    except (LookupError, TypeError):
+        return str(name).lower().replace("-", "").replace("_", "")
 
 
 # ---------------------------------------------------------------------------------------------------
-# R32.3 helpers
+# interpretation set-up
 
 
-def _expr(txt):
+def _ref_codec(direction):
+    """encoding.encode / encoding.decode restricted to what the text layer uses: identity content coding and charset codecs."""
+    f = getattr(codecs, direction)
+
+    def conv(obj, coding, errors="strict"):
+        if obj is None:
+            return None
+        low = coding.lower()
+        if low in ("identity", "none"):
+            return obj
+        try:
+            return f(obj, low, errors)
+        except TypeError:
+            raise
+        except Exception as e:
+            raise ValueError(f"{type(e).__name__} when {direction[:-1]}ing with {low!r}")
+
+    return conv
+
+
+def _interp(ctx):
+    it = GlobalsInterp(ctx.model, trusted_modules={"re": re, "collections": collections, "logging": NullLog(), "codecs": codecs, "warnings": Warnings()})
+    ctx.model.func(ENC, "encode"), ctx.model.func(ENC, "decode")  # anchors of the layer that is replaced
+    it.overrides[(ENC, "encode")] = _ref_codec("encode")
+    it.overrides[(ENC, "decode")] = _ref_codec("decode")
+    return it
+
+
+def _outcome(it, thunk):
+    it.steps = 0
     try:
-        return ast.parse(txt, mode="eval").body
-    except SyntaxError:
-        return None
+        return ("ok", thunk())
+    except Raised as r:
+        return ("raise", r.name)
 
 
-def _falsy_fact(trace, name):
-    """What the branches taken on the path establish about ``name``: 'none' (is None), 'falsy' (None or empty),
-    'present' (the opposite of either), or None (nothing known).  Idioms: X | not X | X is None | X is not None |
-    X == None | X != None | X == '' | X != '' | len(X) == 0 | len(X) != 0 | len(X) > 0."""
-    res = None
-    for e in trace:
-        if e[0] != "cond":
-            continue
-        x, val = _expr(e[1]), e[2]
-        while isinstance(x, ast.UnaryOp) and isinstance(x.op, ast.Not):
-            x, val = x.operand, not val
-        if x is None:
-            continue
-        hit = None  # (kind established when the test is true)
-        if attr_chain(x) == name:
-            hit, val = "falsy", not val
-        elif isinstance(x, ast.Compare) and len(x.ops) == 1 and isinstance(x.comparators[0], ast.Constant):
-            c, op, lhs = x.comparators[0].value, x.ops[0], x.left
-            is_len = isinstance(lhs, ast.Call) and last_attr(lhs.func) == "len" and len(lhs.args) == 1 and attr_chain(lhs.args[0]) == name
-            if attr_chain(lhs) == name and (c is None or c == ""):
-                hit = "none" if c is None else "falsy"
-                if isinstance(op, (ast.IsNot, ast.NotEq)):
-                    val = not val
-                elif not isinstance(op, (ast.Is, ast.Eq)):
-                    hit = None
-            elif is_len and c == 0:
-                hit = "falsy"
-                if isinstance(op, (ast.NotEq, ast.Gt)):
-                    val = not val
-                elif not isinstance(op, ast.Eq):
-                    hit = None
-        if hit is not None:
-            # a failed 'is None' test says nothing about emptiness, a failed falsiness test means present
-            res = hit if val else ("present" if hit == "falsy" or res is None else res)
-    return res
+def _show(o):
+    return f"raises {o[1]}" if o[0] == "raise" else f"returns {o[1]!r}"
 
 
-def _strip_cast(e):
-    while isinstance(e, ast.Call) and last_attr(e.func) == "cast" and len(e.args) == 2 and not e.keywords:
-        e = e.args[1]
-    return e
+# ---------------------------------------------------------------------------------------------------
+# R32.1 - R32.3: the round-trip table
+
+_CTS_Q = [None, "text/plain", "text/plain; charset=utf-8", "text/plain; charset=ISO-8859-1", "text/html", "text/html; charset=utf-16le", "application/json", "text/xml", "text/css",
+          "application/javascript", "text/plain; charset=cp037", "text/plain; charset=x-unknown-charset", "text/html; charset=gb2312", "text/plain; charset=ascii", "application/octet-stream"]
+_CTS_T = ["", "text/plain;charset=UTF-8;format=flowed", "application/xhtml+xml", "image/svg+xml; charset=utf-32be", "text/plain; charset=windows-1252", "application/ld+json; charset=latin-1", "nonsense"]
+_TEXTS_Q = [None, "", " ", "abc", "line1\r\nline2\t{\"k\": [1, 2]}", "é", "Grüße, señor", "€", "中文 text", "\udcff", "ok \udce9 end"]
+_TEXTS_T = ["\n", "x" * 300, "ÀÿĀ", "\U0001f600 emoji", "\udc80\udcfe"]
+# texts that carry their own charset evidence, with a Content-Type that declares none (F-C32 class)
+_DECL = [
+    ("text/html", '<meta charset="latin-1">é'),
+    ("text/html", "<html><head><meta http-equiv='Content-Type' content='text/html; charset=iso-8859-1'></head><body>é</body></html>"),
+    ("application/xml", '<?xml version="1.0" encoding="iso-8859-1"?><r>é</r>'),
+    ("text/css", '@charset "iso-8859-1";\nbody::after{content:"é"}'),
+    ("text/plain; charset=utf-8", "\ufeffabc"),
+    ("text/plain", "\xff\xfeabc"),
+]
+PREVIOUS = b"previous body"
 
 
-def _encode_idiom(e, text):
-    """(codec expression | 'utf-8' default) if ``e`` is ``text.encode(E, ...)`` / ``<module>.encode(text, E, ...)``; else None."""
-    if not (isinstance(e, ast.Call) and isinstance(e.func, ast.Attribute) and e.func.attr == "encode"):
-        return None
-    if any(isinstance(a, ast.Starred) for a in e.args) or any(k.arg is None for k in e.keywords):
-        return None
-    kw = {k.arg: k.value for k in e.keywords}
-    if attr_chain(e.func.value) == text:  # str.encode(encoding='utf-8', errors='strict')
-        return e.args[0] if e.args else kw.get("encoding", ast.Constant(value="utf-8"))
-    if attr_chain(e.func.value) in ("encoding", "codecs", "mitmproxy.net.encoding") and e.args and attr_chain(e.args[0]) == text:
-        if len(e.args) > 1:
-            return e.args[1]
-        if "encoding" in kw:
-            return kw["encoding"]
-        return ast.Constant(value="utf-8") if attr_chain(e.func.value) == "codecs" else None
-    return None
+def _roundtrips(ctx, it):
+    """-> True iff the F-C32 signature was observed (the encoder infers from the header alone, the decoder also from the body)."""
+    st = ctx.func(HTTP, "Message.set_text")
+    gt = ctx.func(HTTP, "Message.get_text")
+    inf = ctx.func(HDRS, INFER)
+    ctx.require(len(params(st)) >= 1 and len(params(inf, drop_self=False)) >= 1, "Message.set_text(text) / infer_content_encoding(content_type, ...) signature changed")
+    thorough = ctx.tier == "thorough"
+    cts = _CTS_Q + (_CTS_T if thorough else [])
+    texts = _TEXTS_Q + (_TEXTS_T if thorough else [])
+    bad = {}
+    counts = collections.Counter()
 
+    def infer(*a):
+        o = _outcome(it, lambda: it.call(HDRS, INFER, *a))
+        ctx.require(o[0] == "ok" and isinstance(o[1], str), f"{INFER}{a!r} {_show(o)} (the inferred charset must be a str)")
+        return o[1]
 
-def _deref(e, trace, idx, depth=0):
-    """Follow a local name back to the expression last assigned to it before position idx -> (expression, position)."""
-    e = _strip_cast(e)
-    if isinstance(e, ast.Name) and depth < 6:
-        for j in range(idx - 1, -1, -1):
-            ev = trace[j]
-            if ev[0] == "assign" and ev[1] == e.id:
-                v = _expr(ev[2])
-                return _deref(v, trace, j, depth + 1) if v is not None else (e, idx)
-    return e, idx
+    def run(ct, text):
+        msg = message_rec({} if ct is None else {"Content-Type": ct}, PREVIOUS)
+        o1 = _outcome(it, lambda: it.method(msg, "set_text", text))
+        return msg, o1
 
+    def where(ct, text):
+        return f"Content-Type {ct!r}, text {text!r}"
 
-def _resolve_codec(e, trace, idx, depth=0):
-    """('const', name) | ('infer', None) | ('other', text): what the codec expression denotes at position idx of the path."""
-    if isinstance(e, ast.Constant) and isinstance(e.value, str):
-        return ("const", e.value)
-    if isinstance(e, ast.Call) and last_attr(e.func) == INFER:
-        return ("infer", None)
-    if isinstance(e, ast.Name) and depth < 6:
-        for j in range(idx - 1, -1, -1):
-            ev = trace[j]
-            if ev[0] == "assign" and ev[1] == e.id:
-                v = _expr(ev[2])
-                return _resolve_codec(v, trace, j, depth + 1) if v is not None else ("other", ev[2])
-    return ("other", ast.unparse(e) if e is not None else "?")
-
-
-def _header_tainted(trace):
-    """Names whose value was computed from the message headers / the inferred charset along the path."""
-    tainted = set()
-
-    def dirty(txt):
-        if INFER in txt or "self.headers" in txt or "self.data.headers" in txt:
-            return True
-        x = _expr(txt)
-        return x is not None and any(isinstance(n, ast.Name) and n.id in tainted for n in ast.walk(x))
-
-    for e in trace:
-        if e[0] == "assign" and e[1].isidentifier() and dirty(e[2].removeprefix("aug:")):
-            tainted.add(e[1])
-    return dirty
-
-
-def _declares(trace, codec):
-    """Does the path set the charset parameter to a constant naming ``codec`` and rebuild Content-Type afterwards?"""
-    cs = [i for i, e in enumerate(trace) if e[0] == "assign" and _q(e[1]).endswith("['charset']")]
-    hd = [i for i, e in enumerate(trace) if e[0] == "assign" and _q(e[1]).lower() in ("self.headers['content-type']", "self.data.headers['content-type']") and "assemble_content_type" in e[2]]
-    if not cs or not hd or hd[-1] < cs[-1]:
-        return False
-    kind, val = _resolve_codec(_expr(trace[cs[-1]][2]), trace, cs[-1])
-    return kind == "const" and _codec(val) == _codec(codec)
-
-
-def _r32_3(ctx, st, text, r322_bad):
-    where = (HTTP, "Message.set_text", st)
-    trs, eng = paths(st, keep=lambda e: e[0] in ("assign", "return", "raise") or (e[0] == "call" and e[1].startswith("self.") and not e[1].startswith(("self.headers.", "self.data.headers."))))
-    ctx.paths += len(trs)
-    n = 0
-    for t, how in trs:
-        if how != "return":
-            continue
-        n += 1
-        conds = [e for e in t if e[0] == "cond"]
-        label = show(conds, 6) or "unconditional"
-        ctx.require(not any(e[0] == "assign" and e[1] == text for e in t), f"Message.set_text re-binds its parameter {text!r} before storing it (shape not modelled): [{label}]")
-        ctx.require(not any(e[0] == "assign" and e[1] in ("self.raw_content", "self.data.content") for e in t), f"Message.set_text writes the raw content directly (shape not modelled): [{label}]")
-        dirty = _header_tainted(t)
-        guarded = any(dirty(e[1]) for e in conds)
-        stores = [i for i, e in enumerate(t) if e[0] == "assign" and e[1] == "self.content"]
-        if not stores:
-            helper = [e[1] for e in t if e[0] == "call"]
-            ctx.require(not helper, f"Message.set_text: path [{label}] stores nothing itself but calls {helper} (helper methods are not modelled)")
-            ctx.require(not guarded and not any("self" in e[1] for e in conds), f"Message.set_text: path [{label}] returns without storing; its guard depends on the message state (shape not modelled)")
-            ctx.fail("R32.3", where, f"set_text returns without storing content on [{label}]", "a text assigned on this path is dropped: reading it back yields the previous body")
-            continue
-        i = stores[-1]
-        v, at = _deref(_expr(t[i][2]), t, i)
-        absent = _falsy_fact(t[:i], text)
-        if isinstance(v, ast.Constant) and (v.value is None or v.value == b""):
-            ctx.check(absent == "none" or (absent == "falsy" and v.value is not None), "R32.3", where, f"set_text stores {t[i][2]} on [{label}]", f"the path stores {t[i][2]} although {text} is not known to be None (for None) / empty (for b''): the assigned text is lost",
-                      desc=f"[{label}] stores {t[i][2]} for an absent text")
-            continue
-        codec_e = _encode_idiom(v, text)
-        ctx.require(codec_e is not None, f"Message.set_text: stored value {t[i][2]!r} on [{label}] is not an encoding of the {text!r} parameter (shape not modelled)")
-        kind, val = _resolve_codec(codec_e, t, at)
-        if kind == "infer":
-            ctx.ok("R32.3", f"[{label}] stores {text} encoded with the charset {INFER} returned")
-        elif kind == "const":
-            if _declares(t, val):
-                ctx.ok("R32.3", f"[{label}] stores {text} encoded with {val!r} and declares it in Content-Type")
-            elif r322_bad and any(e[0] == "except" for e in t):
-                pass  # the fallback path's own defects are reported by R32.2
+    for ct in cts:
+        c_hdr = infer(ct or "")
+        for text in texts:
+            msg, o1 = run(ct, text)
+            ctx.cells += 1
+            if text is None:
+                counts["R32.3"] += 1
+                back = _outcome(it, lambda: it.method(msg, "get_text"))
+                if o1 != ("ok", None) or msg.data.content is not None or back != ("ok", None):
+                    bad.setdefault(("R32.3", "None does not clear the body"), f"{where(ct, text)}: set_text {_show(o1)}, content = {msg.data.content!r}, get_text {_show(back)}")
+                continue
+            try:
+                text.encode(c_hdr)
+                direct = True
+            except (LookupError, UnicodeError):
+                direct = False
+            try:
+                text.encode("utf-8")
+                surrogate = False
+            except UnicodeError:
+                surrogate = True
+            rule = "R32.2" if not direct else ("R32.3" if text.isascii() else "R32.1")
+            counts[rule] += 1
+            stored = msg.data.content
+            back = _outcome(it, lambda: it.method(msg, "get_text", False)) if surrogate else _outcome(it, lambda: it.method(msg, "get_text"))
+            if o1 == ("ok", None) and back == ("ok", text):
+                continue
+            ct_after = header_of(msg, CT)
+            state = f"{where(ct, text)}: set_text {_show(o1)}, stored body {stored!r}, Content-Type afterwards {ct_after!r}, get_text({'strict=False' if surrogate else ''}) {_show(back)}"
+            if o1[0] == "raise":
+                clause = "set_text fails" if rule != "R32.2" else "the UTF-8 fallback fails (surrogate-escaped text cannot be stored)" if surrogate else "the UTF-8 fallback fails"
+            elif stored == PREVIOUS or stored is None:
+                clause = "set_text returns without storing the text"
+            elif rule == "R32.2":
+                if surrogate and isinstance(stored, bytes) and stored == text.encode("utf-8", "surrogateescape") and _codec(infer(ct_after or "", stored)) == "utf-8":
+                    clause = "get_text(strict=False) does not fall back to the inverse of set_text's fallback (utf-8, surrogateescape)"
+                else:
+                    clause = "the UTF-8 fallback stores bytes that do not read back under the Content-Type it leaves behind"
+            elif rule == "R32.1":
+                clause = "set_text and get_text choose different charsets from the same Content-Type header"
             else:
-                ctx.require(not guarded, f"Message.set_text: path [{label}] stores {text} under the constant codec {val!r} behind a test on the header / inferred charset (guarded fast path not modelled)")
-                ctx.fail("R32.3", where, f"set_text stores {ast.unparse(v)} on [{label}]",
-                         f"the body is written with the constant codec {val!r} without declaring it in Content-Type, and the path does not depend on the header: for a declared charset that "
-                         f"encodes the same text differently (utf-16le, utf-32be, cp037) or is unknown, get_text decodes with another codec (mojibake / ValueError) and the charset is not updated")
+                clause = "the stored body is not in the charset get_text infers from the header"
+            bad.setdefault((rule, clause), state)
+
+    # texts carrying their own charset evidence
+    f_c32 = None
+    n_decl = 0
+    for ct, text in _DECL:
+        msg, o1 = run(ct, text)
+        ctx.cells += 1
+        n_decl += 1
+        back = _outcome(it, lambda: it.method(msg, "get_text"))
+        if o1 == ("ok", None) and back == ("ok", text):
+            continue
+        stored, ct_after = msg.data.content, header_of(msg, CT)
+        c_enc = infer(ct)
+        sig = False
+        if o1 == ("ok", None) and isinstance(stored, bytes) and ct_after == ct:
+            c_dec = infer(ct, stored)
+            try:
+                sig = _codec(c_enc) != _codec(c_dec) and stored == text.encode(c_enc)
+            except (LookupError, UnicodeError):
+                sig = False
+        if sig:
+            f_c32 = f_c32 or (f"e.g. {where(ct, text)}: set_text encodes with {c_enc!r} (inferred from the header alone), get_text infers {c_dec!r} from the stored body and {_show(back)}")
         else:
-            raise AnalysisError(f"Message.set_text: codec {val!r} of the store on [{label}] is neither the {INFER} result nor a constant (shape not modelled)")
-    ctx.require(n >= 1, "Message.set_text has no returning path")
+            bad.setdefault(("R32.1", "a text carrying its own charset declaration does not read back (not the F-C32 signature)"),
+                           f"{where(ct, text)}: set_text {_show(o1)}, stored body {stored!r}, Content-Type afterwards {ct_after!r}, get_text() {_show(back)}")
+    ctx.bounds.append(f"R32.1-R32.3: finite table of {len(cts)} Content-Type values x {len(texts)} texts + {n_decl} texts carrying their own charset evidence")
+    if f_c32:
+        ctx.fail("R32.1", (HTTP, "Message.set_text", st), F_C32,
+                 "the decoder also infers the charset from the body (in-body BOM / <meta charset> / <?xml encoding?> / @charset), the encoder does not: "
+                 "a text carrying its own charset declaration is read back with another charset than it was written with; " + f_c32)
+    for (rule, clause), state in sorted(bad.items()):
+        fn = "Message.get_text" if clause.startswith("get_text") else "Message.set_text"
+        ctx.fail(rule, (HTTP, fn, gt if fn.endswith("get_text") else st), f"{fn.split('.')[1]}: {clause}", state)
+    for rule, what in (("R32.1", "non-ASCII texts representable in the header's charset read back (encoder and decoder agree on the charset)"),
+                       ("R32.2", "texts the header's charset cannot represent read back through the declared UTF-8 fallback (surrogateescape both ways)"),
+                       ("R32.3", "None clears the body; empty / blank / ASCII texts read back under every declared charset")):
+        ctx.require(counts[rule] >= 5, f"{rule}: the table has only {counts[rule]} cells of this class ({INFER} changed beyond what the table anticipates)")
+        if not any(k[0] == rule for k in bad):
+            ctx.ok(rule, f"{what} ({counts[rule]} cells)")
+    if not f_c32 and not any(k[0] == "R32.1" for k in bad):
+        ctx.ok("R32.1", f"texts carrying their own charset evidence read back ({n_decl} cells)")
+    return bool(f_c32)
 
 
 # ---------------------------------------------------------------------------------------------------
@@ -274,27 +274,22 @@ _DECLS_T = {  # thorough tier: the same declarations after leading markup
 }
 
 
-def _r32_4(ctx, ips, read, ev_set, ev_get):
-    where = (HDRS, INFER, ctx.func(HDRS, INFER))
-    need = ev_get[0]
-    hdr_p = [p for p, v in need.items() if "headers" in v]
-    body_p = [p for p in need if p not in hdr_p]
-    ctx.require(len(hdr_p) == 1 and len(body_p) <= 1, f"get_text: roles of the {INFER} arguments not recognised: {need}")
-    if not body_p:
-        ctx.ok("R32.4", "not armed: the decoder does not sniff the body")
+def _r32_4(ctx, armed):
+    inf = ctx.func(HDRS, INFER)
+    where = (HDRS, INFER, inf)
+    ips = params(inf, drop_self=False)
+    if len(ips) < 2:
+        ctx.ok("R32.4", "not armed: the decoder cannot sniff the body (infer_content_encoding takes the header only)")
         return 1
-    if not ev_set or any(set(e) != set(hdr_p) for e in ev_set):
-        ctx.ok("R32.4", "not armed: the encoder does not infer from the Content-Type alone (R32.1 decides the evidence)")
+    if not armed:
+        ctx.ok("R32.4", "not armed: the F-C32 asymmetry (encoder infers from the Content-Type alone, decoder also from the body) is not present (R32.1 decides the round trip)")
         return 1
-    import collections
-    import re
+    it = GlobalsInterp(ctx.model, trusted_modules={"re": re, "collections": collections, "logging": NullLog(), "codecs": codecs, "warnings": Warnings()})
 
-    it = Interp(ctx.model, trusted_modules={"re": re, "collections": collections})
-
-    def infer(**kw):
+    def infer(*a):
         it.steps = 0  # the step bound guards one interpretation, not the whole table
         try:
-            return it.call(HDRS, INFER, **kw)
+            return it.call(HDRS, INFER, *a)
         except Raised as r:
             return f"<raises {r.name}>"
 
@@ -312,7 +307,7 @@ def _r32_4(ctx, ips, read, ev_set, ev_get):
             for fmt in fmts:
                 for h in _HDR_CS:
                     ct = fmt % (mt, h)
-                    enc_side = infer(**{hdr_p[0]: ct})
+                    enc_side = infer(ct)
                     for tpl in templates:
                         for b in _BODY_CS:
                             if _codec(b) == _codec(h):
@@ -322,7 +317,7 @@ def _r32_4(ctx, ips, read, ev_set, ev_get):
                                     continue  # an @charset rule only counts as the very first bytes
                                 body = pre + tpl % b.encode()
                                 cells += 1
-                                dec_side = infer(**{hdr_p[0]: ct, body_p[0]: body})
+                                dec_side = infer(ct, body)
                                 if dec_side != enc_side:
                                     bad.append((ct, body, enc_side, dec_side))
         ctx.cells += cells
@@ -339,167 +334,19 @@ def _r32_4(ctx, ips, read, ev_set, ev_get):
 
 
 def check(ctx):
-    ctx.rule("R32.1", "set_text and get_text hand the same (actually read) evidence to infer_content_encoding")
-    ctx.rule("R32.2", "UTF-8 fallback: declared charset == codec used, header rebuilt, surrogateescape; get_text(strict=False) falls back identically")
-    ctx.rule("R32.3", "every returning path of set_text stores the unmodified text encoded with the charset infer_content_encoding returned (what get_text will infer) or with a constant it declares in Content-Type")
+    ctx.rule("R32.1", "set_text ; get_text yields the text for non-ASCII texts the header's charset can represent (same charset chosen from the same header); texts carrying their own charset evidence: F-C32")
+    ctx.rule("R32.2", "UTF-8 fallback: texts the header's charset cannot represent read back (declared charset == codec used, header rebuilt, surrogateescape; get_text(strict=False) falls back identically)")
+    ctx.rule("R32.3", "None / empty / blank / ASCII texts are stored in the charset get_text infers from the header, under every declared charset; nothing is dropped")
     ctx.rule("R32.4", "infer_content_encoding (interpreted over media types x header charsets x in-body declarations): a BOM-free in-body declaration never outranks an explicit Content-Type charset")
-    inf = ctx.func(HDRS, INFER)
-    ips = params(inf, drop_self=False)
-    ctx.require(len(ips) >= 1, f"{INFER} signature changed")
-    read = [p for p in ips if any(isinstance(n, ast.Name) and n.id == p and isinstance(n.ctx, ast.Load) for n in ast.walk(inf))]
-    st = ctx.func(HTTP, "Message.set_text")
-    gt = ctx.func(HTTP, "Message.get_text")
-
-    def evidence(fn, qual):
-        cs = [c for c in ast.walk(fn) if isinstance(c, ast.Call) and last_attr(c.func) == INFER]
-        if not cs:
-            return None
-        ctx.require(len(cs) == 1 or len({ast.unparse(c) for c in cs}) == 1 or qual.endswith("set_text"), f"{qual}: several different {INFER} calls")
-        out = []
-
-        def txt(a):
-            # a local that is bound exactly once in the function to a header read denotes that read (alias, not new evidence)
-            if isinstance(a, ast.Name):
-                src = [n.value for n in ast.walk(fn) if isinstance(n, ast.Assign) and any(isinstance(t, ast.Name) and t.id == a.id for t in n.targets)]
-                if len(src) == 1 and "headers" in ast.unparse(src[0]):
-                    return _q(ast.unparse(src[0]))
-            return _q(ast.unparse(a))
-
-        for c in cs:
-            ev = {}
-            for i, a in enumerate(c.args):
-                ctx.require(i < len(ips) and not isinstance(a, ast.Starred), f"{qual}: {INFER} call not modelled: {ast.unparse(c)}")
-                ev[ips[i]] = txt(a)
-            for k in c.keywords:
-                ctx.require(k.arg in ips, f"{qual}: {INFER} call not modelled: {ast.unparse(c)}")
-                ev[k.arg] = txt(k.value)
-            out.append({p: v for p, v in ev.items() if p in read})
-        return out
-
-    ev_set, ev_get = evidence(st, "Message.set_text"), evidence(gt, "Message.get_text")
-    ctx.require(ev_get is not None, f"Message.get_text no longer calls {INFER} (decoder's charset choice not modelled)")
-    where = (HTTP, "Message.set_text", st)
-    if ev_set is None:
-        ctx.fail("R32.1", where, f"set_text does not call {INFER}; get_text: {INFER}({', '.join(sorted(ev_get[0]))})",
-                 "the encoder does not derive the charset from the evidence the decoder uses")
-    else:
-        need = ev_get[0]
-        union = set().union(*[set(e) for e in ev_set])
-        missing = sorted(set(need) - union)
-        ctx.cells += len(need)
-        if missing:
-            ctx.fail("R32.1", where, f"set_text: {INFER}({', '.join(sorted(union))}) vs get_text: {INFER}({', '.join(sorted(need))})",
-                     f"the decoder also infers the charset from {missing} (in-body BOM / <meta charset> / <?xml encoding?> / @charset), the encoder does not: "
-                     "a text carrying its own charset declaration is read back with another charset than it was written with",
-                     decoder=need, encoder=ev_set)
-        else:
-            ctx.ok("R32.1", f"set_text and get_text both infer from ({', '.join(sorted(need))})")
-        # the header both sides read
-        ct = ips[0]
-        h_set, h_get = {e.get(ct) for e in ev_set if ct in e}, need.get(ct)
-        ctx.check(h_set == {h_get}, "R32.1", where, f"set_text reads {sorted(x for x in h_set if x)} but get_text reads {h_get}",
-                  "encoder and decoder take the declared charset from different headers", desc=f"both read {h_get}")
-
-    # ---- R32.2 set_text fallback
-    text = params(st)[0]
-    trs, eng = paths(st, keep=lambda e: e[0] == "assign")
-    ctx.paths += len(trs)
-    bad = False
-    n_fb = 0
-    fb_codec = fb_err = None
-    for t, how in trs:
-        if how != "return" or not any(e[0] == "except" and e[1] == "ValueError" for e in t):
-            continue
-        n_fb += 1
-        x = next(i for i, e in enumerate(t) if e[0] == "except")
-        tail = t[x:]
-        probs = []
-
-        def const_of(txt):
-            try:
-                v = ast.literal_eval(txt)
-                return v if isinstance(v, str) else None
-            except Exception:
-                src = [e for e in tail if e[0] == "assign" and e[1] == txt]
-                return const_of(src[-1][2]) if src and src[-1][2] != txt else None
-
-        cs = [i for i, e in enumerate(tail) if e[0] == "assign" and _q(e[1]).endswith("['charset']")]
-        hd = [i for i, e in enumerate(tail) if e[0] == "assign" and _q(e[1]).lower() == "self.headers['content-type']"]
-        body = [e for e in tail if e[0] == "assign" and e[1] == "self.content"]
-        declared = const_of(tail[cs[-1]][2]) if cs else None
-        if declared is None:
-            probs.append("the fallback does not set the charset parameter to a constant codec name")
-        if not hd or (cs and hd[-1] < cs[-1]) or "assemble_content_type" not in tail[hd[-1]][2]:
-            probs.append("Content-Type is not rebuilt (assemble_content_type) after the charset parameter was changed")
-        used = errs = None
-        if body:
-            call = ast.parse(body[-1][2], mode="eval").body
-            if isinstance(call, ast.Call) and isinstance(call.func, ast.Attribute) and call.func.attr == "encode" and attr_chain(call.func.value) == text and call.args:
-                used = const_of(ast.unparse(call.args[0]))
-                e2 = call.args[1] if len(call.args) > 1 else next((k.value for k in call.keywords if k.arg == "errors"), None)
-                errs = const_of(ast.unparse(e2)) if e2 is not None else "strict"
-        if used is None:
-            probs.append(f"the fallback does not store {text}.encode(<constant codec>, ...) as content")
-        else:
-            if declared is not None and _codec(declared) != _codec(used):
-                probs.append(f"the fallback declares charset={declared!r} but encodes with {used!r}")
-            if errs != "surrogateescape":
-                probs.append(f"the fallback encodes with errors={errs!r}: surrogate-escaped text cannot be stored")
-            fb_codec, fb_err = used, errs
-        for p in probs:
-            bad = True
-            ctx.fail("R32.2", (HTTP, "Message.set_text", st), f"set_text fallback: [{show([e for e in tail if e[0] == 'assign'], 8)}]", p)
-    ctx.require(bad or n_fb >= 1, "Message.set_text: no 'except ValueError' fallback path")
-    if not bad:
-        ctx.ok("R32.2", f"set_text fallback: charset := {fb_codec}, header rebuilt, {text}.encode({fb_codec!r}, {fb_err!r})")
-
-    # ---- R32.2 get_text non-strict fallback
-    strict = params(gt)[0] if params(gt) else None
-    ctx.require(strict is not None, "Message.get_text(strict) signature changed")
-    trs, eng = paths(gt, keep=lambda e: e[0] in ("assign", "return", "raise"))
-    ctx.paths += len(trs)
-    bad2 = False
-    n_fb = 0
-    for t, how in trs:
-        if not any(e[0] == "except" and e[1] == "ValueError" for e in t):
-            continue
-        sv = [e[2] for e in t if e[0] == "cond" and e[1] == strict]
-        nsv = [not e[2] for e in t if e[0] == "cond" and e[1] == f"not {strict}"]
-        s_ = (sv + nsv)[-1] if (sv + nsv) else None
-        if s_ is not False:
-            continue
-        n_fb += 1
-        ret = [e for e in t if e[0] == "return"]
-        ok_ = False
-        got = None
-        if how == "return" and ret:
-            call = ast.parse(ret[-1][1], mode="eval").body
-            if isinstance(call, ast.Call) and isinstance(call.func, ast.Attribute) and call.func.attr == "decode" and len(call.args) >= 1:
-                try:
-                    codec = ast.literal_eval(call.args[0])
-                    e2 = call.args[1] if len(call.args) > 1 else next((k.value for k in call.keywords if k.arg == "errors"), None)
-                    errs = ast.literal_eval(e2) if e2 is not None else "strict"
-                    got = (codec, errs)
-                    ok_ = fb_codec is not None and _codec(codec) == _codec(fb_codec) and errs == fb_err == "surrogateescape"
-                except Exception:
-                    pass
-        if not ok_ and not bad:
-            bad2 = True
-            ctx.fail("R32.2", (HTTP, "Message.get_text", gt), f"get_text(strict=False) fallback returns {ret[-1][1] if ret else how}",
-                     f"the non-strict decoder fallback {got} is not the inverse of set_text's fallback ({fb_codec!r}, {fb_err!r})")
-    ctx.require(bad or bad2 or n_fb >= 1, "Message.get_text: no non-strict 'except ValueError' fallback path")
-    if not bad and not bad2:
-        ctx.ok("R32.2", f"get_text(strict=False) fallback: decode({fb_codec!r}, {fb_err!r})")
-
-    # ---- R32.3 every stored body is in the decoder's charset
-    _r32_3(ctx, st, text, bad)
-
-    # ---- R32.4 header-first ordering of the charset evidence
-    n4 = _r32_4(ctx, ips, read, ev_set, ev_get)
+    ctx.trust("stdlib codecs / re / collections")
+    ctx.trust("mitmlint.pyint interpretation of http.Message text/content accessors and net/http/headers.py")
+    it = _interp(ctx)
+    armed = _roundtrips(ctx, it)
+    n4 = _r32_4(ctx, armed)
 
     expect(ctx, "R32.1", 2)
-    expect(ctx, "R32.2", 2)
-    expect(ctx, "R32.3", 3)
+    expect(ctx, "R32.2", 1)
+    expect(ctx, "R32.3", 1)
     expect(ctx, "R32.4", n4)
 
 
